@@ -17,8 +17,9 @@ macro_rules! str_fmt {
 pub fn run<S: InterpreterTrait>(interpreter: &mut S) -> Result<(), RuntimeError> {
     let v: &Variant = &interpreter.context()[0];
     let result = match v {
-        Variant::VSingle(f) => str_fmt!(*f, 0.0),
-        Variant::VDouble(f) => str_fmt!(*f, 0.0),
+        // adding zero turns a negative zero into a positive one
+        Variant::VSingle(f) => str_fmt!(*f + 0.0, 0.0),
+        Variant::VDouble(f) => str_fmt!(*f + 0.0, 0.0),
         Variant::VInteger(f) => str_fmt!(*f, 0),
         Variant::VLong(f) => str_fmt!(*f, 0),
         _ => panic!("unexpected arg to STR$"),
